@@ -76,6 +76,31 @@ func check(c Case, o *stats.Obs) error {
 			o.Class("outside-flipped")
 		}
 	}
+	// History: the same backing array is rewritten in place and read again - the result must follow the
+	// current contents (no memory of earlier reads of that buffer).
+	if len(c.Flip) == len(buf) {
+		work := make([]byte, len(buf))
+		copy(work, buf)
+		_ = utils.GetBitsAsUint64(work, uint(pos), uint(w))
+		for round := 0; round < 2; round++ {
+			for i := range work {
+				work[i] ^= c.Flip[i] | byte(1<<uint((i+round)%8))
+			}
+			want2 := ref.Bits(work, pos, w)
+			if g := utils.GetBitsAsUint64(work, uint(pos), uint(w)); g != u64(want2) {
+				o.Key = "stale-after-rewrite"
+				return fmt.Errorf("after the buffer was rewritten in place GetBitsAsUint64(%x, pos %d, width %d) = %d, want %s (contents before: %x)", work, pos, w, g, want2.String(), buf)
+			}
+			if w >= 2 {
+				ws := ref.SignedBits(work, pos, w)
+				if g := utils.GetBitsAsInt64(work, uint(pos), uint(w)); !ws.IsInt64() || g != ws.Int64() {
+					o.Key = "stale-after-rewrite"
+					return fmt.Errorf("after the buffer was rewritten in place GetBitsAsInt64(%x, pos %d, width %d) = %d, want %s", work, pos, w, g, ws.String())
+				}
+			}
+		}
+		o.Class("rewritten-in-place")
+	}
 	o.NonTrivial = w >= 2 && (pos%8 != 0 || w%8 != 0)
 	if pos+w == len(buf)*8 {
 		o.Class("ends-at-buffer-end")
